@@ -130,6 +130,7 @@ class MasterSim(object):
         self.dirty = True
         self.down_since = {}
         self.vanished = {}         # server -> time its presence vanished
+        self.marked = set()        # (server, app) named in a freeze request
         self.last_info = None
         self._cycle_kind = 'init'
         self.cycles = 0
@@ -179,15 +180,15 @@ class MasterSim(object):
 
         orig_load = loader_mod.Loader.load_server
 
-        def load_server(this, servername):
-            res = orig_load(this, servername)
+        def load_server(this, servername, *args, **kwargs):
+            res = orig_load(this, servername, *args, **kwargs)
             declare(this, servername)
             return res
 
         orig_reload = loader_mod.Loader.reload_server
 
-        def reload_server(this, servername):
-            res = orig_reload(this, servername)
+        def reload_server(this, servername, *args, **kwargs):
+            res = orig_reload(this, servername, *args, **kwargs)
             declare(this, servername)
             return res
 
@@ -195,8 +196,8 @@ class MasterSim(object):
 
         orig_remove = loader_mod.Loader.remove_server
 
-        def remove_server(this, servername):
-            res = orig_remove(this, servername)
+        def remove_server(this, servername, *args, **kwargs):
+            res = orig_remove(this, servername, *args, **kwargs)
             if this is sim.master:
                 sim.decl_servers.pop(servername, None)
             return res
@@ -211,6 +212,20 @@ class MasterSim(object):
                 if data:
                     sim.alloc_loaded = data
             return res
+
+        orig_freeze = master_mod.Master._freeze_server
+
+        def freeze_server(this, servername, apps=None, *args, **kwargs):
+            if this is sim.master:
+                server = this.servers.get(servername)
+                if server is not None and \
+                        server.state is not scheduler.State.down:
+                    for appname in apps or []:
+                        if appname in server.apps:
+                            sim.marked.add((servername, appname))
+            return orig_freeze(this, servername, apps, *args, **kwargs)
+
+        master_mod.Master._freeze_server = freeze_server
 
         orig_groups = loader_mod.Loader.load_identity_groups
 
@@ -231,6 +246,7 @@ class MasterSim(object):
         loader_mod.Loader.load_identity_groups = load_identity_groups
 
         self._patches = [
+            (master_mod.Master, '_freeze_server', orig_freeze),
             (loader_mod.Loader, 'load_identity_groups', orig_groups),
             (loader_mod.Loader, 'reload_server', orig_reload),
             (loader_mod.Loader, 'load_server', orig_load),
@@ -422,6 +438,8 @@ class MasterSim(object):
         except Violation:
             raise
         except Exception as err:  # pylint: disable=broad-except
+            if _raised_in_harness(err):
+                raise       # a harness bug must not pass for a master crash
             self.master_crashes += 1
             self.count('master_crashes')
             self.count('master_crash:%s.%s' % (type(err).__name__,
@@ -545,6 +563,11 @@ class MasterSim(object):
                     self.count('moved')
         for obs in self.observers:
             obs(self, info)
+        self.marked = {
+            (srv, name) for srv, name in self.marked
+            if name in self.master.cell.apps and
+            self.master.cell.apps[name].server == srv
+        }
 
     def kick(self):
         """An event that changes nothing (unsupported resource): the master
@@ -1011,6 +1034,19 @@ class MasterSim(object):
                     data = node.data
                 res[(server, inst)] = (data, node.ctime)
         return res
+
+
+def _raised_in_harness(err):
+    """The innermost frame of the exception is harness code (pbt/), or it is
+    a TypeError about one of the harness's wrappers."""
+    tback = err.__traceback__
+    last = None
+    while tback is not None:
+        last = tback.tb_frame.f_code.co_filename
+        tback = tback.tb_next
+    if last and '/pbt/' in last:
+        return True
+    return isinstance(err, TypeError) and '_install_observers' in str(err)
 
 
 def _permute(items, salt):
